@@ -169,3 +169,50 @@ func xmlMutants(text string, self bool, f func(op, mutated string)) {
 		}
 	}
 }
+
+var (
+	xmlDevRE   = regexp.MustCompile(`<devices>\s*<entry(?:\s+name="([^"]*)")?\s*>`)
+	xmlVsysRE  = regexp.MustCompile(`<entry\s+name="(vsys[^"]*)"\s*>`)
+	xmlGroupRE = regexp.MustCompile(`<entry\s+name="([^"]+)"\s*>\s*<static>`)
+)
+
+// xmlCrossCycles: a cycle of address-groups that no single file holds.  For
+// every address-group G of the PAN-OS code file: G gets the further member
+// "x-cycle", which the file does not define; a second file (raw or IPv6)
+// defines the address-group "x-cycle" with the single member G.
+func xmlCrossCycles(text string, f func(mainText, other string)) {
+	dm := xmlDevRE.FindStringSubmatch(text)
+	if dm == nil {
+		return
+	}
+	devAttr := ""
+	if dm[1] != "" {
+		devAttr = ` name="` + dm[1] + `"`
+	}
+	vs := xmlVsysRE.FindAllStringSubmatchIndex(text, -1)
+	for vi, v := range vs {
+		end := len(text)
+		if vi+1 < len(vs) {
+			end = vs[vi+1][0]
+		}
+		vsys := text[v[2]:v[3]]
+		part := text[v[1]:end]
+		ag := strings.Index(part, "<address-group>")
+		if ag < 0 {
+			continue
+		}
+		agEnd := strings.Index(part[ag:], "</address-group>")
+		if agEnd < 0 {
+			continue
+		}
+		sec := part[ag : ag+agEnd]
+		for _, g := range xmlGroupRE.FindAllStringSubmatchIndex(sec, -1) {
+			name := sec[g[2]:g[3]]
+			at := v[1] + ag + g[1] // behind "<static>"
+			mainText := text[:at] + "<member>x-cycle</member>" + text[at:]
+			other := `<config><devices><entry` + devAttr + `><vsys><entry name="` + vsys + `"><address-group><entry name="x-cycle"><static><member>` +
+				name + `</member></static></entry></address-group></entry></vsys></entry></devices></config>`
+			f(mainText, other)
+		}
+	}
+}
